@@ -6,18 +6,23 @@ The model is `KrillModel/Pubd/{Rrdp,Files,Manager}.lean`, tied to
 `src/server/pubd/{rrdp,rsync,content,manager}.rs` and `src/commons/file.rs` by the `pubd`
 correspondence stream (state of the aggregate, log of file-system mutations, files on disk).
 
-Statements of the property that are false of the code are proved in negated form with
-witnesses that replay on the implementation (see `known_findings.jsonl`):
+One statement of the property is false of the code and is proved in negated form with witnesses
+that replay on the implementation (see `known_findings.jsonl`):
 
-* F-C11-1 `old_left_behind_blocks_all_writes`: an interruption between the two renames of the
-  rsync writer and the removal of `old` makes every later write fail;
-* F-C11-2 `deltas_le_max_fails_*`, `max_nr_zero_underflows`: the number of retained deltas is
-  not bounded by `rrdp_delta_files_max_nr` in general;
-* F-C11-3 `notification_corrupt_after_stale_new_notification`: files are opened without
-  truncation, a left-over `new-notification.xml` that is longer than the new one corrupts
-  `notification.xml`;
-* F-C11-4 `rsync_stale_tmp_leaks`: a left-over `tmp-<serial>` directory is re-used without
-  being emptied.
+* F-C11-2 `deltas_le_max_fails_min_ge_max`, `deltas_le_max_fails_young`: the number of retained
+  deltas is not bounded by `rrdp_delta_files_max_nr` in general (documented design: the minimum
+  rules win).
+
+Repaired in the code, the model follows the fixed code and the old behaviour is kept only as
+counter-models of the pinned tree (`pinned_…`):
+
+* F-C11-1 (fix 5d860534): a left-over `old` directory is removed before `current` is renamed
+  onto it – `rsync_write_after_any_cut` now holds for every cut;
+* F-C11-2, underflow part (fix bf93c0cb): `max_nr.saturating_sub(1)`;
+* F-C11-3 (fix 4ab08295): files are truncated when created – `notification_consistent_at_every_cut`
+  needs no assumption about a left-over `new-notification.xml`;
+* F-C11-4 (fix 8d070115): a left-over `tmp-<serial>` directory is removed before it is filled –
+  `rsync_equals_snapshot` needs no assumption about left-over directories.
 -/
 import KrillModel.Pubd.Lemmas
 namespace KM.Props.C11
@@ -107,41 +112,48 @@ theorem truncation_drops_suffix (r : Rrdp) (t rnd : Nat) :
 `max_nr - 1` or beyond is younger than `rrdp_delta_files_min_seconds`.
 
 The full statement ("the retained deltas never exceed the configured maximum number") is false
-of the code: see `deltas_le_max_fails_min_ge_max`, `deltas_le_max_fails_young`,
-`max_nr_zero_underflows` (F-C11-2). -/
+of the code: see `deltas_le_max_fails_min_ge_max`, `deltas_le_max_fails_young` (F-C11-2, open:
+by design the minimum rules win over the maximum). -/
 theorem deltas_le_max_partial (r : Rrdp) (minNr maxNr : Nat) (ages : List (Bool × Bool))
-    (t rnd : Nat) (hmin : minNr + 1 ≤ maxNr)
-    (hyoung : ∀ j a, ages[j]? = some a → maxNr - 1 ≤ j → a.1 = false)
-    (ht : findTruncateAge minNr maxNr ages = some t) :
-    (r.applyUpdated t rnd).deltas.length ≤ maxNr := by
-  have hle : t ≤ maxNr - 1 :=
-    truncLoop_le minNr maxNr hmin ages 0 t (Nat.zero_le _)
-      (fun j a hj hle => hyoung j a hj (by simpa using hle)) ht
-  show (List.take _ (_ :: r.deltas.take t)).length ≤ maxNr
+    (rnd : Nat) (hmin : minNr + 1 ≤ maxNr)
+    (hyoung : ∀ j a, ages[j]? = some a → maxNr - 1 ≤ j → a.1 = false) :
+    (r.applyUpdated (findTruncateAge minNr maxNr ages) rnd).deltas.length ≤ maxNr := by
+  have hle : findTruncateAge minNr maxNr ages ≤ maxNr - 1 :=
+    truncLoop_le minNr maxNr hmin ages 0 (Nat.zero_le _)
+      (fun j a hj hle => hyoung j a hj (by simpa using hle))
+  show (List.take _ (_ :: r.deltas.take _)).length ≤ maxNr
   rw [List.length_take]
-  have : (r.deltas.take t).length ≤ t := by rw [List.length_take]; exact Nat.min_le_left _ _
+  have : (r.deltas.take (findTruncateAge minNr maxNr ages)).length ≤
+      findTruncateAge minNr maxNr ages := by rw [List.length_take]; exact Nat.min_le_left _ _
   simp only [List.length_cons]
   omega
 
-example : findTruncateAge 1 3 [(false, false), (false, false), (false, false)] = some 2 := by decide
+example : findTruncateAge 1 3 [(false, false), (false, false), (false, false)] = 2 := by decide
 
 /-- F-C11-2 (a): with `min_nr ≥ max_nr` the number arm `keep == max_nr - 1` is never reached
 (the `min_nr` arm wins while `keep < min_nr`, afterwards `keep` is already past `max_nr - 1`):
 here `min_nr = max_nr = 2`, four old deltas, none young, none too old – all four are kept and
 the update makes five. -/
 theorem deltas_le_max_fails_min_ge_max :
-    findTruncateAge 2 2 [(false, false), (false, false), (false, false), (false, false)] = some 4 := by
+    findTruncateAge 2 2 [(false, false), (false, false), (false, false), (false, false)] = 4 := by
   decide
 
 /-- F-C11-2 (b): deltas younger than `min_seconds` are always kept; once `keep` has passed
 `max_nr - 1` the equality test never fires again. -/
 theorem deltas_le_max_fails_young :
-    findTruncateAge 0 2 [(true, false), (true, false), (true, false), (false, false)] = some 4 := by
+    findTruncateAge 0 2 [(true, false), (true, false), (true, false), (false, false)] = 4 := by
   decide
 
-/-- F-C11-2 (c): `max_nr = 0` makes `max_nr - 1` underflow as soon as a delta is neither within
-`min_nr` nor young (a panic in builds with overflow checks). -/
-theorem max_nr_zero_underflows : findTruncateAge 0 0 [(false, false)] = none := by decide
+/-- With the fix bf93c0cb a limit of 0 behaves like a limit of 1: nothing old is kept beyond the
+minimum rules. -/
+theorem max_nr_zero_keeps_nothing_old (ages : List (Bool × Bool)) (a : Bool) :
+    findTruncateAge 0 0 ((false, a) :: ages) = 0 := by
+  simp [findTruncateAge, truncLoop]
+
+/-- COUNTER-MODEL OF THE PINNED TREE (F-C11-2, underflow part, before fix bf93c0cb): `max_nr = 0`
+made `max_nr - 1` underflow as soon as a delta was neither within `min_nr` nor young (a panic
+in builds with overflow checks). -/
+theorem pinned_max_nr_zero_underflows : truncLoopPinned 0 0 0 [(false, false)] = none := by decide
 
 /-! ## The snapshot is the publication state -/
 
@@ -206,44 +218,35 @@ example :
 /-! ## The rsync tree -/
 
 /-- `rsync_equals_snapshot` — every complete run of `RsyncdStore::write` (the files of the
-snapshot saved in any order) on a directory where
-
-* there is no left-over `tmp-<serial>` directory (otherwise F-C11-4),
-* `current` and a non-empty `old` are not both present (otherwise F-C11-1),
-* the snapshot gives one content per relative path (otherwise the shared URIs of F-C10-1/2),
-
-succeeds, and afterwards `current` holds exactly the objects of the snapshot, `old` and the
-temporary directory are gone. -/
+snapshot saved in any order), on **any** content of the rsync directory – whatever an earlier
+interrupted or failed write left behind –, succeeds, and afterwards `current` holds exactly the
+objects of the snapshot, `old` and the temporary directory are gone.  The only assumption is
+that the snapshot gives one content per relative path (false only for the shared URIs of
+F-C10-1). -/
 theorem rsync_equals_snapshot (fs : RsyncFs) (base : Uri) (serial : Nat) (objs : Objs)
     (log : List Sig) (ms : List RMut) (rest : List (Bool × List RMut))
     (hm : matchLog RMut.sig (rsyncPlan fs base serial objs) log = some (ms, rest))
     (hdone : planDone rest = true)
-    (hclean : fs.get? (.tmp serial) = none)
-    (hold : fs.get? .current = none ∨ fs.get? .old = none ∨ fs.get? .old = some [])
     (hfun : FilesFunctional (rsyncFiles base objs)) :
     ∃ fs' t, fs.applyAll ms = (fs', true) ∧ fs'.current = some t ∧
       (∀ rel, t.get? rel = (expectedTree base objs).get? rel) ∧
       fs'.get? .old = none ∧ fs'.get? (.tmp serial) = none := by
   obtain ⟨ss, rfl, hsub, hall⟩ := rsync_complete_shape hm hdone
-  -- mkdir
-  have hmk : fs.apply (.mkdir (.tmp serial)) = some (fs.set (.tmp serial) []) := by
-    simp only [RsyncFs.apply, hclean]
-  have h1 : (fs.set (.tmp serial) []).get? (.tmp serial) = some [] := by
-    rw [RsyncFs.get?_set]; simp
-  -- saves
+  obtain ⟨fs1, hhead, h1, hoth1⟩ := rsync_head_ok fs serial
   obtain ⟨fs2, t, happ, hget, hokt, hoth, _, hfiles⟩ :=
     apply_saves (rsyncFiles base objs) hfun (.tmp serial) ss
       (fun m hm => by
         obtain ⟨p, hp, rfl⟩ := List.mem_map.mp (hsub m hm)
         exact ⟨p, hp, rfl⟩)
-      _ [] h1 (fun rel r h => by simp [Tree.get?] at h)
+      fs1 [] h1 (fun rel r h => by simp [Tree.get?] at h)
   have hoth' : ∀ n, n ≠ .tmp serial → fs2.get? n = fs.get? n := by
     intro n hn
-    rw [hoth n hn, RsyncFs.get?_set]; simp [hn]
-  obtain ⟨fs5, htail, hcur, hold5, htmp5⟩ := rsync_tail_ok hget hoth' hold
+    rw [hoth n hn, hoth1 n hn]
+  obtain ⟨fs5, htail, hcur, hold5, htmp5⟩ := rsync_tail_ok hget hoth'
   refine ⟨fs5, t, ?_, hcur, ?_, hold5, htmp5⟩
-  · rw [List.append_assoc, List.singleton_append, applyAll_cons_some hmk,
-      RsyncFs.applyAll_append, happ]
+  · rw [RsyncFs.applyAll_append, RsyncFs.applyAll_append, hhead]
+    simp only
+    rw [happ]
     exact htail
   · intro rel
     apply tree_eq_expected hokt
@@ -257,114 +260,76 @@ example : FilesFunctional (rsyncFiles ⟨rsyncLower, ⟨"h", 0⟩, ⟨"m", 0⟩,
   simp at hp hq
   rw [hp, hq]
 
-/-- `rsync_write_after_any_cut_partial` — start from a directory without `old` and without
-temporary directories and interrupt a write of serial `serial1` anywhere (`ms1` is any run of a
-prefix of its plan).  A later complete write for another serial succeeds and yields the
-snapshot, **unless** the interruption left both `current` and a non-empty `old` behind.
-
-The full statement ("an interrupted write never prevents later writes") is false: the
-exception happens for the cut between `rename(tmp → current)` and the removal of `old`
-(`rsync_cut_leaves_old`), and from then on *every* write fails
-(`old_left_behind_blocks_all_writes`, F-C11-1).  A later write for the *same* serial re-uses
-the left-over temporary directory (`rsync_stale_tmp_leaks`, F-C11-4). -/
-theorem rsync_write_after_any_cut_partial (fs : RsyncFs) (base : Uri) (serial1 serial2 : Nat)
-    (objs1 objs2 : Objs)
-    (hnotmp : ∀ n, fs.get? (.tmp n) = none)
-    (log1 : List Sig) (ms1 : List RMut) (rest1 : List (Bool × List RMut))
-    (hm1 : matchLog RMut.sig (rsyncPlan fs base serial1 objs1) log1 = some (ms1, rest1))
-    (hne : serial2 ≠ serial1)
-    (hwin : (fs.applyAll ms1).1.get? .current = none ∨ (fs.applyAll ms1).1.get? .old = none ∨
-      (fs.applyAll ms1).1.get? .old = some [])
+/-- `rsync_write_after_any_cut` — interrupt a write anywhere (`ms1` is any run of a prefix of its
+plan, on any directory `fs`; it does not even matter whether its mutations succeeded): every
+later complete write, for any serial and any snapshot, succeeds and yields the snapshot.  An
+interrupted write never prevents later writes. -/
+theorem rsync_write_after_any_cut (fs : RsyncFs) (base : Uri) (serial1 serial2 : Nat)
+    (objs1 objs2 : Objs) (log1 : List Sig) (ms1 : List RMut) (rest1 : List (Bool × List RMut))
+    (_hm1 : matchLog RMut.sig (rsyncPlan fs base serial1 objs1) log1 = some (ms1, rest1))
     (log2 : List Sig) (ms2 : List RMut) (rest2 : List (Bool × List RMut))
     (hm2 : matchLog RMut.sig (rsyncPlan (fs.applyAll ms1).1 base serial2 objs2) log2 = some (ms2, rest2))
     (hdone : planDone rest2 = true)
     (hfun : FilesFunctional (rsyncFiles base objs2)) :
     ∃ fs' t, (fs.applyAll ms1).1.applyAll ms2 = (fs', true) ∧ fs'.current = some t ∧
       ∀ rel, t.get? rel = (expectedTree base objs2).get? rel := by
-  -- the interrupted write touches only `tmp-<serial1>`, `current` and `old`
-  have hkeep : (fs.applyAll ms1).1.get? (.tmp serial2) = none := by
-    rw [applyAll_other fs ms1 (.tmp serial2)]
-    · exact hnotmp serial2
-    · intro m hm
-      obtain ⟨ph, hph, hmem⟩ := matchLog_mem RMut.sig hm1 m hm
-      rw [rsyncPlan_eq] at hph
-      simp only [List.mem_cons, List.mem_nil_iff, or_false] at hph
-      rcases hph with rfl | rfl | rfl
-      · simp only [List.mem_singleton] at hmem
-        subst hmem
-        simp [RMut.touches, hne.symm]
-      · obtain ⟨p, _, rfl⟩ := List.mem_map.mp hmem
-        simp [RMut.touches, hne.symm]
-      · unfold rsyncTail at hmem
-        simp only [List.mem_append, List.mem_cons, List.mem_nil_iff, or_false] at hmem
-        rcases hmem with (hmem | hmem) | hmem
-        · split at hmem
-          · simp only [List.mem_singleton] at hmem; subst hmem; simp [RMut.touches]
-          · cases hmem
-        · subst hmem; simp [RMut.touches, hne.symm]
-        · split at hmem
-          · simp only [List.mem_singleton] at hmem; subst hmem; simp [RMut.touches]
-          · cases hmem
   obtain ⟨fs', t, h1, h2, h3, _, _⟩ :=
-    rsync_equals_snapshot _ base serial2 objs2 log2 ms2 rest2 hm2 hdone hkeep hwin hfun
+    rsync_equals_snapshot _ base serial2 objs2 log2 ms2 rest2 hm2 hdone hfun
   exact ⟨fs', t, h1, h2, h3⟩
 
-/-- F-C11-1, the window: the cut after `rename(tmp-2 → current)` and before the removal of
-`old` leaves `current` and a non-empty `old`. -/
-theorem rsync_cut_leaves_old :
+/-- Non-vacuity, and the former failing case: the cut after `rename(tmp-2 → current)` and before
+the removal of `old` leaves `current` and a non-empty `old`; the next write removes `old` first
+and succeeds. -/
+example :
     let fs : RsyncFs := [(.current, [(["ca", "a.cer"], .clean ⟨1, 10⟩)])]
     let base : Uri := ⟨rsyncLower, ⟨"h", 0⟩, ⟨"m", 0⟩, [], true⟩
     let objs : Objs := [(⟨rsyncLower, ⟨"h", 0⟩, ⟨"m", 0⟩, ["ca", "a.cer"], false⟩, ⟨2, 10⟩)]
-    let log : List Sig := [⟨"create_dir_all", [.name "tmp-2"], []⟩,
+    let log1 : List Sig := [⟨"create_dir_all", [.name "tmp-2"], []⟩,
            ⟨"create", [.name "tmp-2", .name "ca", .name "a.cer"], []⟩,
            ⟨"rename", [.name "current"], [.name "old"]⟩,
            ⟨"rename", [.name "tmp-2"], [.name "current"]⟩]
-    (matchLog RMut.sig (rsyncPlan fs base 2 objs) log).map (fun r =>
-        (planDone r.2, (fs.applyAll r.1).2, ((fs.applyAll r.1).1.get? .current).isSome,
-          (fs.applyAll r.1).1.get? .old == some [(["ca", "a.cer"], .clean ⟨1, 10⟩)])) =
-      some (false, true, true, true) := by
+    let log2 : List Sig := [⟨"create_dir_all", [.name "tmp-3"], []⟩,
+           ⟨"create", [.name "tmp-3", .name "ca", .name "a.cer"], []⟩,
+           ⟨"remove_dir_all", [.name "old"], []⟩,
+           ⟨"rename", [.name "current"], [.name "old"]⟩,
+           ⟨"rename", [.name "tmp-3"], [.name "current"]⟩,
+           ⟨"remove_dir_all", [.name "old"], []⟩]
+    (matchLog RMut.sig (rsyncPlan fs base 2 objs) log1).bind (fun r1 =>
+      let fs1 := (fs.applyAll r1.1).1
+      (matchLog RMut.sig (rsyncPlan fs1 base 3 objs) log2).map (fun r2 =>
+        (planDone r1.2, (fs1.get? .old).isSome, planDone r2.2, (fs1.applyAll r2.1).2,
+          (fs1.applyAll r2.1).1.get? .current == some [(["ca", "a.cer"], .clean ⟨2, 10⟩)]))) =
+      some (false, true, true, true, true) := by
   decide
 
-/-- F-C11-1: once `current` and a non-empty `old` are both present, every complete run of
-every later write fails (at `rename(current → old)`), whatever is to be written. -/
-theorem old_left_behind_blocks_all_writes (fs : RsyncFs) (tc : Tree) (x : List String × Raw)
-    (xs : Tree) (hcur : fs.get? .current = some tc) (hold : fs.get? .old = some (x :: xs))
-    (base : Uri) (serial : Nat) (objs : Objs) (log : List Sig) (ms : List RMut)
-    (rest : List (Bool × List RMut))
-    (hm : matchLog RMut.sig (rsyncPlan fs base serial objs) log = some (ms, rest))
-    (hdone : planDone rest = true) :
-    (fs.applyAll ms).2 = false := by
-  obtain ⟨ss, rfl, hsub, _⟩ := rsync_complete_shape hm hdone
-  rw [RsyncFs.applyAll_append]
-  -- whatever mkdir and the saves do (they may even fail), `current` and `old` stay
-  have hpre := applyAll_other fs ([.mkdir (.tmp serial)] ++ ss)
-  have hmem : ∀ m ∈ [RMut.mkdir (.tmp serial)] ++ ss, ∀ n, n = .current ∨ n = .old →
-      m.touches n = false := by
-    intro m hm n hn
-    rw [List.mem_append] at hm
-    rcases hm with hm | hm
-    · simp only [List.mem_singleton] at hm; subst hm
-      rcases hn with rfl | rfl <;> simp [RMut.touches]
-    · obtain ⟨p, _, rfl⟩ := List.mem_map.mp (hsub m hm)
-      rcases hn with rfl | rfl <;> simp [RMut.touches]
-  have hc := hpre .current (fun m hm => hmem m hm _ (Or.inl rfl))
-  have ho := hpre .old (fun m hm => hmem m hm _ (Or.inr rfl))
-  generalize fs.applyAll ([RMut.mkdir (.tmp serial)] ++ ss) = r at hc ho
-  obtain ⟨fs2, ok⟩ := r
-  cases ok with
-  | false => rfl
-  | true =>
-    simp only at hc ho ⊢
-    unfold rsyncTail
-    simp only [hcur, Option.isSome_some, ↓reduceIte, List.cons_append, List.nil_append]
-    rw [applyAll_cons_none]
-    simp only [RsyncFs.apply, hc, hcur, ho, hold]
+/-- COUNTER-MODEL OF THE PINNED TREE (F-C11-1, before fix 5d860534): after the same cut the next
+write (plan of the pinned tree: no removal of a left-over `old`) fails at
+`rename(current → old)`, and so did every later one. -/
+theorem pinned_old_left_behind_blocks_write :
+    let fs : RsyncFs := [(.current, [(["ca", "a.cer"], .clean ⟨1, 10⟩)])]
+    let base : Uri := ⟨rsyncLower, ⟨"h", 0⟩, ⟨"m", 0⟩, [], true⟩
+    let objs : Objs := [(⟨rsyncLower, ⟨"h", 0⟩, ⟨"m", 0⟩, ["ca", "a.cer"], false⟩, ⟨2, 10⟩)]
+    let log1 : List Sig := [⟨"create_dir_all", [.name "tmp-2"], []⟩,
+           ⟨"create", [.name "tmp-2", .name "ca", .name "a.cer"], []⟩,
+           ⟨"rename", [.name "current"], [.name "old"]⟩,
+           ⟨"rename", [.name "tmp-2"], [.name "current"]⟩]
+    let log2 : List Sig := [⟨"create_dir_all", [.name "tmp-3"], []⟩,
+           ⟨"create", [.name "tmp-3", .name "ca", .name "a.cer"], []⟩,
+           ⟨"rename", [.name "current"], [.name "old"]⟩,
+           ⟨"rename", [.name "tmp-3"], [.name "current"]⟩,
+           ⟨"remove_dir_all", [.name "old"], []⟩]
+    (matchLog RMut.sig (rsyncPlanPinned fs base 2 objs) log1).bind (fun r1 =>
+      let fs1 := (fs.applyAllPinned r1.1).1
+      (matchLog RMut.sig (rsyncPlanPinned fs1 base 3 objs) log2).map (fun r2 =>
+        (planDone r1.2, (fs1.get? .old).isSome, planDone r2.2, (fs1.applyAllPinned r2.1).2))) =
+      some (false, true, true, false) := by
+  decide
 
-/-- F-C11-4: a left-over `tmp-1` directory (from an interrupted write at serial 1 of an earlier
-session) is re-used by the next write for serial 1: the write succeeds, but `current` contains
-an object the snapshot does not have, and a shorter object written over a longer one is
-neither. -/
-theorem rsync_stale_tmp_leaks :
+/-- COUNTER-MODEL OF THE PINNED TREE (F-C11-4, before fixes 8d070115 and 4ab08295): a left-over
+`tmp-1` directory was re-used by the next write for serial 1: the write succeeded, but `current`
+contained an object the snapshot did not have, and a shorter object written over a longer one
+was neither. -/
+theorem pinned_rsync_stale_tmp_leaks :
     let fs : RsyncFs := [(.tmp 1, [(["ca", "a.cer"], .clean ⟨1, 10⟩), (["ca", "m.mft"], .clean ⟨4, 1500⟩)]),
                          (.current, [(["ca", "m.mft"], .clean ⟨5, 9⟩)])]
     let base : Uri := ⟨rsyncLower, ⟨"h", 0⟩, ⟨"m", 0⟩, [], true⟩
@@ -374,10 +339,10 @@ theorem rsync_stale_tmp_leaks :
            ⟨"rename", [.name "current"], [.name "old"]⟩,
            ⟨"rename", [.name "tmp-1"], [.name "current"]⟩,
            ⟨"remove_dir_all", [.name "old"], []⟩]
-    (matchLog RMut.sig (rsyncPlan fs base 1 objs) log).map (fun r =>
-        (planDone r.2, (fs.applyAll r.1).2,
-          (fs.applyAll r.1).1.current.bind (·.get? ["ca", "a.cer"]),
-          (fs.applyAll r.1).1.current.bind (·.get? ["ca", "m.mft"]))) =
+    (matchLog RMut.sig (rsyncPlanPinned fs base 1 objs) log).map (fun r =>
+        (planDone r.2, (fs.applyAllPinned r.1).2,
+          (fs.applyAllPinned r.1).1.current.bind (·.get? ["ca", "a.cer"]),
+          (fs.applyAllPinned r.1).1.current.bind (·.get? ["ca", "m.mft"]))) =
       some (true, true, some (.clean ⟨1, 10⟩), some .garbage) := by
   decide
 
@@ -390,10 +355,10 @@ notification names only files that exist with the stated content, and interrupt 
 happen in any order).  Then the notification on disk still names only files that exist with the
 stated content.
 
-Preconditions (`RrdpPre`): no left-over `new-notification.xml` (otherwise F-C11-3,
-`notification_corrupt_after_stale_new_notification`), file names of the form
-`<session>/<serial>/<random>/…`, no notification from the future, contiguous deltas, and a file
-already sitting at the path of a delta or of the snapshot is that very file. -/
+Preconditions (`RrdpPre`): file names of the form `<session>/<serial>/<random>/…`, no
+notification from the future, contiguous deltas, and a file already sitting at the path of a
+delta or of the snapshot is that very file.  Nothing is assumed about a left-over
+`new-notification.xml` (files are truncated when created, fix 4ab08295). -/
 theorem notification_consistent_at_every_cut (r : Rrdp) (fs : RrdpFs) (hpre : RrdpPre r fs)
     (hc : fs.consistent = true) (log : List Sig) (ms : List Mut) (rest : Plan)
     (hm : matchLog Mut.sig (rrdpPlan r fs) log = some (ms, rest)) :
@@ -409,7 +374,7 @@ example :
     let fs : RrdpFs := [(notifPath, .notif ⟨1, 1, ⟨snapshotPath r0, snapshotFile r0⟩, []⟩),
                         (snapshotPath r0, .data (snapshotFile r0))]
     RrdpPre r fs ∧ fs.consistent = true ∧ (rrdpPlan r fs).length = 3 := by
-  refine ⟨⟨by decide, ?_, ?_, ⟨by decide, ⟨rfl, by decide, trivial⟩⟩, by decide, by decide⟩,
+  refine ⟨⟨?_, ?_, ⟨by decide, ⟨rfl, by decide, trivial⟩⟩, by decide, by decide⟩,
     by decide, by decide⟩
   · intro n hn
     have : n = ⟨1, 1, ⟨snapshotPath (Rrdp.create 1 1), snapshotFile (Rrdp.create 1 1)⟩, []⟩ := by
@@ -424,11 +389,10 @@ example :
     subst this
     cases hd
 
-/-- F-C11-3: files are opened without truncation.  An interruption between the creation of
-`new-notification.xml` and its rename leaves that file behind; if the next notification is
-shorter (here: after a session reset it lists no deltas, the left-over one listed two), its tail
-stays and `notification.xml` is not a well-formed file after the rename. -/
-theorem notification_corrupt_after_stale_new_notification :
+/-- The former failing case: a left-over, longer `new-notification.xml` (two deltas) and a new
+notification without deltas (after a session reset): the notification is well-formed and
+consistent after the rename. -/
+example :
     let r : Rrdp := { session := 2, serial := 1, snapRnd := 5, snapshot := [], deltas := [], staged := [] }
     let d3 : DataRef := ⟨[.sess 1, .num 3, .rnd 3, .name "delta.xml"], .delta 1 3 []⟩
     let d2 : DataRef := ⟨[.sess 1, .num 2, .rnd 2, .name "delta.xml"], .delta 1 2 []⟩
@@ -439,7 +403,25 @@ theorem notification_corrupt_after_stale_new_notification :
     let log : List Sig := [⟨"create", snapshotPath r, []⟩, ⟨"create", newNotifPath, []⟩,
       ⟨"rename", newNotifPath, notifPath⟩]
     fs.consistent = true ∧
-    (matchLog Mut.sig (rrdpPlan r fs) log).map (fun p => (fs.applyAll p.1).consistent) = some false := by
+    (matchLog Mut.sig (rrdpPlan r fs) log).map (fun p => (fs.applyAll p.1).consistent) = some true := by
+  decide
+
+/-- COUNTER-MODEL OF THE PINNED TREE (F-C11-3, before fix 4ab08295): files were opened without
+truncation.  In the same situation the tail of the left-over file stayed and `notification.xml`
+was not a well-formed file after the rename. -/
+theorem pinned_notification_corrupt_after_stale_new_notification :
+    let r : Rrdp := { session := 2, serial := 1, snapRnd := 5, snapshot := [], deltas := [], staged := [] }
+    let d3 : DataRef := ⟨[.sess 1, .num 3, .rnd 3, .name "delta.xml"], .delta 1 3 []⟩
+    let d2 : DataRef := ⟨[.sess 1, .num 2, .rnd 2, .name "delta.xml"], .delta 1 2 []⟩
+    let sn : DataRef := ⟨[.sess 1, .num 3, .rnd 1, .name "snapshot.xml"], .snapshot 1 3 []⟩
+    let stale : Notif := ⟨1, 4, sn, [(3, d3), (2, d2)]⟩
+    let fs : RrdpFs := [(notifPath, .notif ⟨1, 3, sn, [(3, d3), (2, d2)]⟩), (sn.path, .data sn.data),
+      (d3.path, .data d3.data), (d2.path, .data d2.data), (newNotifPath, .notif stale)]
+    let log : List Sig := [⟨"create", snapshotPath r, []⟩, ⟨"create", newNotifPath, []⟩,
+      ⟨"rename", newNotifPath, notifPath⟩]
+    fs.consistent = true ∧
+    (matchLog Mut.sig (rrdpPlan r fs) log).map (fun p => (fs.applyAllPinned p.1).consistent) =
+      some false := by
   decide
 
 end KM.Props.C11
